@@ -345,13 +345,17 @@ def _lease_history(k, qsize):
         E.prove('history:requests_retained_up_to_the_configured_queue_size_the_rest_refused',
                 same(accepted, reqs[:qsize] if qsize > 0 else reqs))
         n = E.fresh_int('granted', 0, 0x7FFFFFFF)
-        ttl = E.fresh_int('ttl_ms', 1, 0x7FFFFFFF)
+        ttl = E.fresh_int('ttl_ms', 0, 0x7FFFFFFF)
         lf = E.call(E.lookup(FR + 'LeaseFrame'), [])
         E.setattr(lf, 'number_of_requests', n)
         E.setattr(lf, 'time_to_live', ttl)
         E.await_value(E.call(E.getattr(sock, 'handle_lease'), [lf]))
         released = len(accepted)
-        for m in range(len(accepted)):
+        # a LEASE whose time-to-live is zero has elapsed the moment it arrives: it releases nothing and admits nothing
+        dead = E.decide(mk_bool(I(ttl) == 0), 'time-to-live=0')
+        if dead:
+            released = 0
+        for m in range(len(accepted) if not dead else 0):
             if E.decide(mk_bool(I(n) == m), 'granted=%d' % m):
                 released = m
                 break
@@ -365,8 +369,8 @@ def _lease_history(k, qsize):
             E.setattr(lf2, 'time_to_live', ttl)
             E.await_value(E.call(E.getattr(sock, 'handle_lease'), [lf2]))
             rest = len(accepted) - released
-            more = rest
-            for m in range(rest):
+            more = rest if not dead else 0       # the second LEASE carries the same time-to-live
+            for m in range(rest if not dead else 0):
                 if E.decide(mk_bool(I(n2) == m), 'granted2=%d' % m):
                     more = m
                     break
@@ -376,7 +380,7 @@ def _lease_history(k, qsize):
         # one more request under the same lease
         late = E.call(E.lookup(FR + 'RequestResponseFrame'), [])
         E.setattr(late, 'stream_id', 99)
-        left = released == len(accepted) and E.decide(mk_bool(I(n) > len(accepted)), 'grant-left')
+        left = (not dead) and released == len(accepted) and E.decide(mk_bool(I(n) > len(accepted)), 'grant-left')
         if E.path.choice(2, 'lease-expired-meanwhile') == 1:
             E.path.ghost['now'] = I(now0) + I(ttl) * 1000       # exactly at the end of the time-to-live
             left = False
